@@ -151,6 +151,15 @@ fn exec(run: &mut Run, ev: &J, writes: &mut u64, observe_pos: bool) -> Got {
                 _ => Ok(Err(std::io::Error::new(std::io::ErrorKind::Other, "harness: no reader in slot"))),
             }
         }
+        "ReadRest" => match &mut run.hs[slot] {
+            H::R(r) => {
+                let mut out = Vec::new();
+                let x = guarded(|| r.read_to_end(&mut out).map(|_| ()));
+                got.bytes = Some(out);
+                x
+            }
+            _ => Ok(Err(std::io::Error::new(std::io::ErrorKind::Other, "harness: no reader in slot"))),
+        },
         "Close" => {
             let h = std::mem::replace(&mut run.hs[slot], H::None);
             guarded(|| {
